@@ -10,7 +10,8 @@ META = {
         "longer than tag + id; R3 value keys go to the value keyspace, map keys to the map keyspace, and the keyspace names agree with the column "
         "families opened; R4 NodePersistence methods map to the right engine operation and key variant; R5 the in-memory store hands the state "
         "back to the plane on every path of Drop and marks it in use when handed out; R6 no durability-weakening knob is used; R7 composite store "
-        "names must be injective."),
+        "names must be injective. R9 in-memory store operation table (own id, own kind, whole-value replacement, fresh ids); R1 includes the counter's merge operator."
+),
     "does_not_decide": "read-your-writes of either store for all histories; survival of SIGKILL (RocksDB's own guarantee)",
 }
 
